@@ -12,6 +12,7 @@ type Renderer struct {
 	// TableAliases collects the aliases given to base tables of the outermost FROM clause (for hints).
 	TableAliases []string
 	depth        int
+	ctes         []string // WITH definitions collected while rendering
 }
 
 type scope []string // SQL name of each ordinal of the current FROM row
@@ -25,7 +26,13 @@ var opSQL = map[string]string{"eq": "=", "ne": "<>", "lt": "<", "le": "<=", "gt"
 	"and": "AND", "or": "OR", "xor": "XOR", "plus": "+", "minus": "-", "times": "*", "div": "DIV", "mod": "%"}
 
 // Query renders a full statement.
-func (r *Renderer) Query(q *Query) string { return r.query(q, nil) }
+func (r *Renderer) Query(q *Query) string {
+	body := r.query(q, nil)
+	if len(r.ctes) > 0 {
+		return "WITH " + strings.Join(r.ctes, ", ") + " " + body
+	}
+	return body
+}
 
 func (r *Renderer) query(q *Query, outer []scope) string {
 	var sb strings.Builder
@@ -123,6 +130,18 @@ func (r *Renderer) from(f *From, outer []scope) (string, scope) {
 			sc[i] = fmt.Sprintf("%s.c%d", a, i+1)
 		}
 		return fmt.Sprintf("%s AS %s", f.Name, a), sc
+	case "cte":
+		name := fmt.Sprintf("w%d", len(r.ctes)+1)
+		r.depth++
+		inner := r.query(f.Q, nil)
+		r.depth--
+		r.ctes = append(r.ctes, fmt.Sprintf("%s AS (%s)", name, inner))
+		a := r.alias()
+		sc := make(scope, f.Q.Width())
+		for i := range sc {
+			sc[i] = fmt.Sprintf("%s.x%d", a, i+1)
+		}
+		return fmt.Sprintf("%s AS %s", name, a), sc
 	case "derived":
 		a := r.alias()
 		r.depth++
@@ -207,6 +226,12 @@ func (r *Renderer) expr(e *Expr, scopes []scope) string {
 		return s + " ELSE " + r.expr(e.Els, scopes) + " END)"
 	case "fn":
 		return strings.ToUpper(e.F) + "(" + r.exprs(e.A, scopes) + ")"
+	case "raw":
+		args := make([]interface{}, len(e.A))
+		for i, a := range e.A {
+			args[i] = r.expr(a, scopes)
+		}
+		return "(" + fmt.Sprintf(e.Raw, args...) + ")"
 	case "agg":
 		switch e.F {
 		case "countstar":
